@@ -10,6 +10,7 @@ package main
 import (
 	"fmt"
 	"math/big"
+	"net/http"
 	"net/url"
 	"strconv"
 	"strings"
@@ -149,6 +150,19 @@ func requestOracle(base string, k call, got string) string {
 	return ""
 }
 
+// baseRefused: net/http's own verdict on the configured base (http.NewRequest fails, or there is
+// no http(s) scheme for the transport)
+func baseRefused(base string) bool {
+	if base == "" {
+		return false
+	}
+	req, err := http.NewRequest("GET", base+"/x", nil)
+	if err != nil {
+		return true
+	}
+	return req.URL.Scheme != "http" && req.URL.Scheme != "https"
+}
+
 func kindsOf(l []el, kind int64) []el {
 	var r []el
 	for _, e := range l {
@@ -243,7 +257,7 @@ func goOracle(base string, w world, k call, status int, b body, ob observed) str
 			valid = false
 		}
 	}
-	permitted := valid && w.Lim != 2 && w.Ctx != 1
+	permitted := valid && w.Lim != 2 && w.Ctx != 1 && !baseRefused(base)
 	var hops []string
 	if w.Ctx == 0 && w.Follow {
 		hops = w.Hops
